@@ -7,25 +7,24 @@ ENV_SPEC = {
     'trait_extra': '''
     /// ghost view of the variable store (assumed contract on implementors)
     spec fn vars(&self) -> Map<Seq<char>, Seq<char>>;
-    spec fn get_fails(&self, name: Seq<char>) -> bool;
-    spec fn assign_fails(&self, name: Seq<char>, value: Seq<char>) -> bool;
+    /// whether an access fails is a property of the name (and value), fixed during one evaluation
+    spec fn get_fails(name: Seq<char>) -> bool;
+    spec fn assign_fails(name: Seq<char>, value: Seq<char>) -> bool;
 ''',
     'methods': {
         'get_variable': {
             'ret': 'res',
             'ensures': [
-                'self.get_fails(name@) <==> res is Err',
+                'Self::get_fails(name@) <==> res is Err',
                 'res is Ok ==> (match res->Ok_0 { Some(v) => self.vars().contains_key(name@) && v@ == self.vars()[name@], None => !self.vars().contains_key(name@) })',
             ],
         },
         'assign_variable': {
             'ret': 'res',
             'ensures': [
-                'old(self).assign_fails(name@, value@) <==> res is Err',
+                'Self::assign_fails(name@, value@) <==> res is Err',
                 'res is Ok ==> final(self).vars() == old(self).vars().insert(name@, value@)',
                 'res is Err ==> final(self).vars() == old(self).vars()',
-                'forall|n: Seq<char>| final(self).get_fails(n) == old(self).get_fails(n)',
-                'forall|n: Seq<char>, v: Seq<char>| final(self).assign_fails(n, v) == old(self).assign_fails(n, v)',
             ],
         },
     },
@@ -48,7 +47,7 @@ UNIT = {
         ('@raw', 'pub mod ty {\n' + MOD_HEAD),
         (TOKEN, ['enum Value']),
         (TOKEN, ['impl Display for Value'], {'attrs': ['#[verifier::external]']}),
-        (TOKEN, ['enum Term']),
+        (TOKEN, ['enum Term'], {'drop_derive_names': ['Clone']}),
         (TOKEN, ['enum Operator']),
         (AST, ['enum PrefixOperator']),
         (AST, ['enum PostfixOperator']),
@@ -60,6 +59,7 @@ UNIT = {
         (AST, ['impl Operator', 'fn as_binary'], {'vis': 'pub', 'ret': 'r', 'ensures': ['r == c_binary(self)']}),
         (AST, ['impl Operator', 'fn precedence'], {'vis': 'pub', 'ret': 'p', 'ensures': ['p == c_level(self)']}),
         ('yash-arith/src/env.rs', ['trait Env'], ENV_SPEC),
+        (AST, ['enum Ast']),
         (EVAL, ['enum EvalError']),
         (EVAL, ['struct Error']),
         ('@raw', '}\n'),
@@ -71,6 +71,7 @@ UNIT = {
                         'super::envlem::axiom_value_to_string', 'super::envlem::lemma_i64_not']),
         ('@file', 'prelude_sem.rs'),
         ('@file', 'prelude_env.rs'),
+        ('@file', 'prelude_sem_eval.rs'),
         (EVAL, ['fn expand_variable'], {
             'ret': 'res',
             'ensures': ['value_contract(var_value(*env, name@), res)'],
@@ -98,17 +99,17 @@ UNIT = {
             'ret': 'res',
             'ensures': [
                 'assign_contract(*old(env), *final(env), name@, value->0, res, value->0)',
-                'forall|n: Seq<char>| final(env).get_fails(n) == old(env).get_fails(n)',
-                'forall|n: Seq<char>, v: Seq<char>| final(env).assign_fails(n, v) == old(env).assign_fails(n, v)',
             ],
         }),
         (EVAL, ['fn apply_prefix'], {
             'ret': 'res',
-            'ensures': ['prefix_contract(*old(env), *final(env), term, operator, res)'],
+            'ensures': ['prefix_contract(*old(env), *final(env), term, operator, res)',
+                        'sem_ok_v(f_prefix::<E>(old(env).vars(), term, operator), res, final(env).vars())'],
         }),
         (EVAL, ['fn apply_postfix'], {
             'ret': 'res',
-            'ensures': ['postfix_contract(*old(env), *final(env), term, operator, res)'],
+            'ensures': ['postfix_contract(*old(env), *final(env), term, operator, res)',
+                        'sem_ok_v(f_postfix::<E>(old(env).vars(), term, operator), res, final(env).vars())'],
         }),
         (EVAL, ['fn binary_result'], {
             'ret': 'res',
@@ -138,7 +139,17 @@ UNIT = {
         }),
         (EVAL, ['fn apply_binary'], {
             'ret': 'res',
-            'ensures': ['binary_contract(*old(env), *final(env), lhs, rhs, operator, res)'],
+            'ensures': ['binary_contract(*old(env), *final(env), lhs, rhs, operator, res)',
+                        'sem_ok_v(f_binary::<E>(old(env).vars(), lhs, rhs, operator), res, final(env).vars())'],
+        }),
+        (EVAL, ['fn eval'], {
+            'ret': 'res',
+            'requires': ['wf(ast@)'],
+            # top-level postcondition from the property: the result is that of the reference evaluator
+            # (exact values, errors exactly where demanded, unevaluated operands have no effect)
+            'ensures': ['sem_ok(sem_eval::<E>(ast@, old(env).vars()), res, final(env).vars())'],
+            'decreases': ['ast@.len()'],
+            'eta_expand': {'Term::Value': "Term<'a>"},
         }),
         ('@raw', '}\n'),
     ],
